@@ -25,7 +25,7 @@ RULE = (
     'dot == sum of numpy.vdot over leaves (conjugating the first argument); *_like reproduce treedef, shapes, dtypes '
     '(and fill value; random ones: bounds, determinism in the key, different leaves get different draws). '
     'non-trivial = a non-commutative operator with a reflected operand, or mixed dtypes, or a complex dot.'
-    ' Also: every component of an arithmetic result equals, dtype and sign of zero included, the same operation on that component alone, for the operand as given and (Python scalars) for every equal Python scalar of another type (2 / 2.0 / 2+0j, True / 1, 0.0 / -0.0); dot(x, x) with the same object; dot on leaves of 1023-65536 elements.'
+    ' Also: every component of an arithmetic result equals, dtype and sign of zero included, the same operation on that component alone, for the operand as given and (Python scalars) for every equal Python scalar of another type (2 / 2.0 / 2+0j, True / 1, 0.0 / -0.0); dot(x, x) with the same object; dot on leaves of 1023-65536 elements; dot(x, y) with leaf dtypes of y drawn independently of x (complex against real, either way round).'
 )
 ASSUMPTIONS = [
     'NumPy ndarrays of rank >= 1 as the other operand are not generated (NumPy dispatch pre-empts the container and returns an object array)',
@@ -143,7 +143,12 @@ def helper_case(draw, mode):
         # cannot hold a sum over thousands of elements - a matter of the result dtype, not of the sum)
         leaves = [[sh_, 'float32' if dt_ == 'float16' else dt_] for sh_, dt_ in leaves]
     layout = draw(st.sampled_from(['tuple', 'list', 'dict', 'nested', 'leaf']))
-    return {'what': what, 'leaves': leaves, 'layout': layout, 'seed': draw(st.integers(0, 99)),
+    ydts = None
+    if what == 'dot' and draw(st.booleans()):
+        # the two arguments share the tree and the shapes, not necessarily the dtypes (a complex x against a real y, ...)
+        pool_ = ['float32', 'int32', 'complex64', 'float32'] + (['float64', 'complex128'] if mode == 'x64' else [])
+        ydts = [draw(st.sampled_from(pool_)) for _ in leaves]
+    return {'what': what, 'ydts': ydts, 'leaves': leaves, 'layout': layout, 'seed': draw(st.integers(0, 99)),
             'fill': draw(st.sampled_from([0, 1, 3, -2])), 'struct_leaves': draw(st.booleans()),
             'low': draw(st.sampled_from([0.0, -2.0])), 'span': draw(st.sampled_from([1.0, 4.0]))}
 
@@ -508,9 +513,12 @@ def _check_helper(r, mode):
         return a
 
     xs = [arr(sh, dt, 0) for sh, dt in specs]
-    ys = [arr(sh, dt, 1) for sh, dt in specs]
+    yspecs = specs
+    if r.get('ydts'):
+        yspecs = [(sh, np.dtype(yd)) for (sh, _), yd in zip(specs, r['ydts'])]
+    ys = [arr(sh, dt, 1) for sh, dt in yspecs]
     jx = _tree(r['layout'], [jnp.asarray(a, dtype=dt) for a, (_, dt) in zip(xs, specs)])
-    jy = _tree(r['layout'], [jnp.asarray(a, dtype=dt) for a, (_, dt) in zip(ys, specs)])
+    jy = _tree(r['layout'], [jnp.asarray(a, dtype=dt) for a, (_, dt) in zip(ys, yspecs)])
     structs = _tree(r['layout'], [jax.ShapeDtypeStruct(sh, dt) for sh, dt in specs])
     classes = ['helper:' + w]
     order = jax.tree.structure(jx)
@@ -529,6 +537,11 @@ def _check_helper(r, mode):
         cplx = any(dt.kind == 'c' for _, dt in flat_specs)
         if cplx:
             classes.append('complex')
+        if any(a.dtype.kind == 'c' and b.dtype.kind != 'c' for a, b in zip(jax.tree.leaves(jx), jax.tree.leaves(jy))):
+            classes.append('complex_x_real_y')
+        if any(a.dtype.kind != 'c' and b.dtype.kind == 'c' for a, b in zip(jax.tree.leaves(jx), jax.tree.leaves(jy))):
+            classes.append('real_x_complex_y')
+            cplx = True
         if any(int(np.prod(sh)) >= 1000 for sh, _ in flat_specs):
             classes.append('long_leaf')
         return {'nontrivial': cplx, 'classes': classes}
